@@ -9,13 +9,10 @@ It is FALSE for the current `deepClone` (no `reflect.Interface` case): `clone_in
 obtained by reflection on every run.  With an Interface case (`ci = true`) the side condition only
 excludes chan/func/unsafe.Pointer (`clone_independent_fixed`).
 -/
-import MtxVerif.Model.C11
+import MtxVerif.Lemmas.C11Heap
 import MtxVerif.Gen.C11
 
 namespace MtxVerif.C11
-
-/-- all cells of `v` were allocated before `n` -/
-def Below (n : Nat) (v : V) : Prop := ∀ l ∈ locs v, l < n
 
 /-- writes into any cell reachable from the copy (root cell included) do not change the original -/
 def IndependentAt (ci : Bool) (v : V) (n : Nat) : Prop :=
@@ -111,38 +108,6 @@ theorem cloneRoot_fresh (ci : Bool) (v : V) (n : Nat) (h : clonable ci v = true)
   rcases List.mem_cons.mp hl with rfl | hl
   · omega
   · have := (clone_fresh ci v (n + 1) h).2 l hl; omega
-
-/-! #### a write into a cell that does not occur in a value does not change it -/
-
-mutual
-theorem mutate_noop (l : Nat) (fp : V → V) (fs : Vs → Vs) : ∀ v : V, l ∉ locs v → mutate l fp fs v = v
-  | .atom a, _ => by simp [mutate]
-  | .ptr l' p, h => by
-    have h1 : l' ≠ l := fun e => h (by simp [locs, e])
-    have h2 : l ∉ locs p := fun e => h (by simp [locs, e])
-    simp [mutate, h1, mutate_noop l fp fs p h2]
-  | .slice l' es, h => by
-    have h1 : l' ≠ l := fun e => h (by simp [locs, e])
-    have h2 : l ∉ locsS es := fun e => h (by simp [locs, e])
-    simp [mutate, h1, mutateS_noop l fp fs es h2]
-  | .map l' es, h => by
-    have h1 : l' ≠ l := fun e => h (by simp [locs, e])
-    have h2 : l ∉ locsS es := fun e => h (by simp [locs, e])
-    simp [mutate, h1, mutateS_noop l fp fs es h2]
-  | .struct fds, h => by
-    have h2 : l ∉ locsS fds := fun e => h (by simpa [locs] using e)
-    simp [mutate, mutateS_noop l fp fs fds h2]
-  | .iface v, h => by
-    have h2 : l ∉ locs v := fun e => h (by simpa [locs] using e)
-    simp [mutate, mutate_noop l fp fs v h2]
-  | .other l', _ => by simp [mutate]
-theorem mutateS_noop (l : Nat) (fp : V → V) (fs : Vs → Vs) : ∀ vs : Vs, l ∉ locsS vs → mutateS l fp fs vs = vs
-  | .nil, _ => by simp [mutateS]
-  | .cons f k hd tl, h => by
-    have h1 : l ∉ locs hd := fun e => h (by simp [locsS, e])
-    have h2 : l ∉ locsS tl := fun e => h (by simp [locsS, e])
-    simp [mutateS, mutate_noop l fp fs hd h1, mutateS_noop l fp fs tl h2]
-end
 
 /-- value-level independence -/
 theorem clone_independent_val (ci : Bool) (v : V) (n : Nat) (hc : clonable ci v = true) (hb : Below n v) :
@@ -300,10 +265,6 @@ theorem clone_independent_fixed (t : Ty) (h : noOther t = true) : Independent tr
   clone_independent_partial true t (noOther_noUnhandled t h)
 
 /-! #### "therefore a rejected API edit leaves the running configuration untouched" -/
-
-/-- a sequence of heap writes, as seen from value `v` -/
-def applyWrites (ws : List (Nat × (V → V) × (Vs → Vs))) (v : V) : V :=
-  ws.foldl (fun v w => mutate w.1 w.2.1 w.2.2 v) v
 
 /-- An edit works on the copy: every write goes to a cell of the copy or to a cell allocated after the
 copy was made.  Whatever it writes, and whether or not it is then rejected, the original is unchanged. -/
